@@ -76,7 +76,8 @@ Lemma can_return_lemma p idem k sh ls s :
   run_lts p (init idem k sh) ls = Some s ->
   (forall m, g_main s <> MRet m) ->
   (exists th, In th (g_th s) /\ is_done (r_pc (t_run th)) = true) ->
-  exists ls' s' m, (length ls' <= 2)%nat /\ run_lts p s ls' = Some s' /\ g_main s' = MRet m.
+  exists ls' s' m, (length ls' <= 2)%nat /\ run_lts p s ls' = Some s' /\ g_main s' = MRet m
+                   /\ Forall (fun l => l <> LCancel) ls'.
 Proof.
   intros Hr Hnr (th & Hin & Hd).
   assert (Hi : live_inv s).
@@ -90,24 +91,24 @@ Proof.
     assert (t = 0%nat). { assert (t < length (g_th s))%nat by (apply nth_error_Some; congruence). lia. }
     subst t. pose proof (Forall_nth_error _ _ _ _ Hf Ht) as He. simpl in He. subst ex.
     exists [LSeqRet]. eexists. exists (MIter res). split; [simpl; lia|].
-    split; [simpl; rewrite Em, Ht; reflexivity | reflexivity].
+    split; [simpl; rewrite Em, Ht; reflexivity | split; [reflexivity | repeat constructor; discriminate]].
   - (* in speculate's loop *)
     destruct (Hw eq_refl) as [Hc Hf]. pose proof (Forall_nth_error _ _ _ _ Hf Ht) as [H1 H2]. simpl in *.
     destruct (g_chan s) as [r|] eqn:Ec.
-    + exists [LMainRecv]. eexists. exists (MIter r). split; [simpl; lia|]. split; [simpl; rewrite Em, Ec; simpl; reflexivity | reflexivity].
+    + exists [LMainRecv]. eexists. exists (MIter r). split; [simpl; lia|]. split; [simpl; rewrite Em, Ec; simpl; reflexivity | split; [reflexivity | repeat constructor; discriminate]].
     + destruct ex as [[|]|].
       * exfalso. apply (H1 eq_refl). symmetry. exact Hc.
-      * exists [LMainCtx]. eexists. exists MCtx. split; [simpl; lia|]. split; [simpl; rewrite Em, (H2 eq_refl); simpl; reflexivity | reflexivity].
+      * exists [LMainCtx]. eexists. exists MCtx. split; [simpl; lia|]. split; [simpl; rewrite Em, (H2 eq_refl); simpl; reflexivity | split; [reflexivity | repeat constructor; discriminate]].
       * exists [LSend t; LMainRecv]. eexists. exists (MIter res). split; [simpl; lia|].
-        split; [simpl; rewrite Em, Ht, Ec; simpl; rewrite ?Em; simpl; reflexivity | reflexivity].
+        split; [simpl; rewrite Em, Ht, Ec; simpl; rewrite ?Em; simpl; reflexivity | split; [reflexivity | repeat constructor; discriminate]].
   - (* final select *)
     destruct (Hw eq_refl) as [Hc Hf]. pose proof (Forall_nth_error _ _ _ _ Hf Ht) as [H1 H2]. simpl in *.
     destruct (g_chan s) as [r|] eqn:Ec.
-    + exists [LMainRecv]. eexists. exists (MIter r). split; [simpl; lia|]. split; [simpl; rewrite Em, Ec; simpl; reflexivity | reflexivity].
+    + exists [LMainRecv]. eexists. exists (MIter r). split; [simpl; lia|]. split; [simpl; rewrite Em, Ec; simpl; reflexivity | split; [reflexivity | repeat constructor; discriminate]].
     + destruct ex as [[|]|].
       * exfalso. apply (H1 eq_refl). symmetry. exact Hc.
-      * exists [LMainCtx]. eexists. exists MCtx. split; [simpl; lia|]. split; [simpl; rewrite Em, (H2 eq_refl); simpl; reflexivity | reflexivity].
+      * exists [LMainCtx]. eexists. exists MCtx. split; [simpl; lia|]. split; [simpl; rewrite Em, (H2 eq_refl); simpl; reflexivity | split; [reflexivity | repeat constructor; discriminate]].
       * exists [LSend t; LMainRecv]. eexists. exists (MIter res). split; [simpl; lia|].
-        split; [simpl; rewrite Em, Ht, Ec; simpl; rewrite ?Em; simpl; reflexivity | reflexivity].
+        split; [simpl; rewrite Em, Ht, Ec; simpl; rewrite ?Em; simpl; reflexivity | split; [reflexivity | repeat constructor; discriminate]].
   - exfalso. apply (Hnr m). reflexivity.
 Qed.
